@@ -188,12 +188,35 @@ pub fn reply_shape_problem(v: &Value) -> Option<String> {
 	None
 }
 
+/// Equality of JSON values where numbers outside the integer range are compared as doubles up to a few ULPs:
+/// without its `float_roundtrip` feature serde_json reads a long literal to a neighbouring double, so a number that
+/// went text -> handler -> text -> harness may come back one ULP away from the harness's own reading of the text.
+pub fn value_eq(a: &Value, b: &Value) -> bool {
+	match (a, b) {
+		(Value::Number(x), Value::Number(y)) => {
+			if x == y {
+				return true;
+			}
+			if (x.is_u64() || x.is_i64()) && (y.is_u64() || y.is_i64()) {
+				return false;
+			}
+			match (x.as_f64(), y.as_f64()) {
+				(Some(p), Some(q)) => p == q || (p - q).abs() <= 4.0 * f64::EPSILON * p.abs().max(q.abs()),
+				_ => false,
+			}
+		}
+		(Value::Array(x), Value::Array(y)) => x.len() == y.len() && x.iter().zip(y).all(|(p, q)| value_eq(p, q)),
+		(Value::Object(x), Value::Object(y)) => x.len() == y.len() && x.iter().all(|(k, p)| y.get(k).is_some_and(|q| value_eq(p, q))),
+		_ => a == b,
+	}
+}
+
 /// Does `reply` carry `payload`? (id is checked by the caller)
 pub fn payload_matches(reply: &Value, payload: &Payload) -> Result<(), String> {
 	match payload {
 		Payload::Skip => Ok(()),
 		Payload::Result(v) => {
-			if reply.get("result") == Some(v) {
+			if reply.get("result").is_some_and(|r| value_eq(r, v)) {
 				Ok(())
 			} else {
 				Err(format!("expected result {}", crate::engine::truncate(&v.to_string(), 300)))
@@ -210,7 +233,7 @@ pub fn payload_matches(reply: &Value, payload: &Payload) -> Result<(), String> {
 				}
 			}
 			if let Some(d) = data {
-				if e.get("data") != d.as_ref() {
+				if !(match (e.get("data"), d.as_ref()) { (Some(x), Some(y)) => value_eq(x, y), (None, None) => true, _ => false }) {
 					return Err(format!("expected error data {d:?}"));
 				}
 			}
